@@ -59,7 +59,7 @@ func keyPairs(t *testing.T) []keyPair {
 func baseStep() *pipeline.CommandStep {
 	return &pipeline.CommandStep{
 		Command: "echo hello\nmake test",
-		Env:     map[string]string{"A": "1", "SHADOW": "step"},
+		Env:     map[string]string{"A": "1", "SHADOW": "step", "BLANKED": ""},
 		Plugins: pipeline.Plugins{
 			{Source: "docker#v1", Config: map[string]any{"image": "alpine", "n": 1}},
 			{Source: "org/cache#v2", Config: nil},
@@ -132,6 +132,15 @@ func mutations() []mutation {
 		{"pipeline-env-missing", true, func(_ *pipeline.CommandStep, env map[string]string, _ *string, _ *pipeline.Signature) {
 			delete(env, "P")
 		}},
+		{"pipeline-env-empty-valued-missing", true, func(_ *pipeline.CommandStep, env map[string]string, _ *string, _ *pipeline.Signature) {
+			delete(env, "EMPTY") // a signed variable whose value is the empty string still has to be present
+		}},
+		{"pipeline-env-empty-valued-changed", true, func(_ *pipeline.CommandStep, env map[string]string, _ *string, _ *pipeline.Signature) {
+			env["EMPTY"] = "x"
+		}},
+		{"shadowed-by-empty-step-value-changed", false, func(_ *pipeline.CommandStep, env map[string]string, _ *string, _ *pipeline.Signature) {
+			env["BLANKED"] = "other" // the step sets BLANKED to "", which shadows the pipeline's value: not signed
+		}},
 		{"pipeline-env-now-shadowed", true, func(s *pipeline.CommandStep, _ map[string]string, _ *string, _ *pipeline.Signature) {
 			s.Env["P"] = "pipeline"
 		}},
@@ -168,7 +177,7 @@ func TestC01(t *testing.T) {
 	ctx := context.Background()
 	cases, failures := 0, 0
 	for _, kp := range keyPairs(t) {
-		env := map[string]string{"P": "pipeline", "SHADOW": "pipeline", "Q": "q"}
+		env := map[string]string{"P": "pipeline", "SHADOW": "pipeline", "Q": "q", "EMPTY": "", "BLANKED": "pipeline"}
 		url := "git@example.com:org/repo.git"
 		step := baseStep()
 		sig, err := signature.Sign(ctx, kp.signer, &signature.CommandStepWithInvariants{CommandStep: *step, RepositoryURL: url}, signature.WithEnv(env))
@@ -251,9 +260,9 @@ func TestC14(t *testing.T) {
 	for i := 0; i < rounds; i++ {
 		s, e := base()
 		env2 := map[string]string{}
-		keys := []string{"SHADOW", "A"}
+		keys := []string{"SHADOW", "A", "BLANKED"}
 		if i%2 == 0 {
-			keys = []string{"A", "SHADOW"}
+			keys = []string{"BLANKED", "A", "SHADOW"}
 		}
 		for _, k := range keys {
 			env2[k] = s.Env[k]
@@ -267,6 +276,16 @@ func TestC14(t *testing.T) {
 		if p := payloadOf(t, kp.signer, s, e, "url"); p != p0 {
 			failures++
 			t.Errorf("payload differs for an equivalent step (round %d)", i)
+		}
+	}
+	// a pipeline variable the step shadows - even with an empty value - is not part of the payload
+	for _, v := range []string{"one", "two"} {
+		s, e := base()
+		e["BLANKED"] = v
+		cases++
+		if p := payloadOf(t, kp.signer, s, e, "url"); p != p0 {
+			failures++
+			t.Errorf("payload depends on the pipeline's value of a variable the step sets to the empty string (BLANKED=%s)", v)
 		}
 	}
 	for _, emptyForm := range []func(*pipeline.CommandStep){
@@ -348,7 +367,7 @@ func genSteps(depth, seed, level, unkAt int, lastPath bool) pipeline.Steps {
 	for i := 0; i < n; i++ {
 		switch (seed + i) % 4 {
 		case 0:
-			out = append(out, &pipeline.CommandStep{Command: fmt.Sprintf("echo %d-%d", depth, i), Env: map[string]string{"SHADOW": "s"}})
+			out = append(out, &pipeline.CommandStep{Command: fmt.Sprintf("echo %d-%d", depth, i), Env: map[string]string{"SHADOW": "s", "BLANK": ""}})
 		case 1:
 			out = append(out, &pipeline.WaitStep{Scalar: "wait"})
 		case 2:
@@ -409,8 +428,8 @@ func TestC06(t *testing.T) {
 							continue
 						}
 						steps := genSteps(depth, seed, 0, unkAt, lastPath)
-						env := map[string]string{"P": "v", "SHADOW": "pipeline"}
-						envBefore := map[string]string{"P": "v", "SHADOW": "pipeline"}
+						env := map[string]string{"P": "v", "SHADOW": "pipeline", "BLANK": "pipeline"}
+						envBefore := map[string]string{"P": "v", "SHADOW": "pipeline", "BLANK": "pipeline"}
 						before, _ := json.Marshal(steps)
 						err := signature.SignSteps(ctx, steps, kp.signer, "repo", signature.WithEnv(env))
 						cases++
